@@ -357,6 +357,21 @@ def oracle(ctx, sf):
                 if o["cls"] in ("Xgate", "Zgate", "Vgate", "Gaussian", "MeasureHomodyne", "MSgate"):
                     ctx.tally(f"op:{backend.split('-')[0]}:{o['cls']}")
             check_case(ctx, sf, spec, backend, h, plan, seed, order, share)
+    # states near the absolute tolerances of the code, small / large hbar conventions, up to six modes
+    for it in range(ctx.n(40, 600)):
+        backend = "gaussian" if it % 4 else "bosonic"
+        spec, kind = hb.threshold_program(rng, backend)
+        n = spec["n"]
+        h = hb.EXTREME[it % len(hb.EXTREME)] if rng.random() < 0.85 else rng.choice(hb.HBARS)
+        plan = hb.rand_plan(rng, backend, n, rng.randint(6, 10))
+        plan.insert(rng.randint(0, len(plan)), dict(m="is_pure") if backend == "gaussian" else dict(m="purity"))
+        plan.append(dict(m="mean_photon", mode=rng.randrange(n)))
+        seed = rng.randrange(10 ** 6)
+        order = rng.choice(["2h", "h2"])
+        ctx.tally(f"threshold:{kind}")
+        ctx.count(f"oracle:threshold:{backend}:n={n}", dict(s=spec, b=backend, h=h, p=plan), True,
+                  sample=dict(spec=spec, backend=backend, hbar=h, kind=kind))
+        check_case(ctx, sf, spec, backend, h, plan, seed, order, False)
     for _ in range(ctx.n(3, 30)):
         utils_states_check(ctx, sf, rng)
     for _ in range(ctx.n(6, 60)):
@@ -383,6 +398,21 @@ def correspondence(ctx, sf):
     dcases = hc.decomp_cases(ctx, sf, ctx.n(42, 420))
     bcases = hc.bstate_cases(ctx, sf, ctx.n(105, 1050))
     qcases = hc.fockquad_cases(ctx, sf, ctx.n(70, 700))
+    pcases = hc.pure_cases(ctx, sf, ctx.n(64, 640))
+    panswers = ctx.lean([c[0] for c in pcases])
+    for (req, real, case), model in zip(pcases, panswers):
+        ctx.corr_cases += 1
+        ctx.count(f"corr:purity-decision:{case['site']}:hbar={case['hbar']}", case, case["hbar"] != 2)
+        if isinstance(model, dict) and "__error__" in model:
+            ctx.disagree("Hbar.pureNormalised vs purity flag", case, str(model)[:200], str(real))
+            continue
+        ctx.tally("corr:purity-decision:" + ("pure" if real else "mixed"))
+        if abs(abs(hc.unfr(model["det"]) - 1) / float(hc.unfr(req["tol"])) - 1) < 0.9:
+            ctx.tally("corr:purity-decision:too-close-to-threshold")     # generator promise broken: do not judge
+            continue
+        if model["normalised"] is not real:
+            ctx.disagree("Hbar.pureNormalised vs Gaussian.__init__ / BaseGaussianState.__init__ purity flag", case,
+                         str(model)[:200], str(real))
     answers = ctx.lean([c[0] for c in fcases + rcases + scases + ucases + dcases + bcases + qcases])
     k0 = len(fcases) + len(rcases) + len(scases) + len(ucases)
     for j, (req, real, case) in enumerate(dcases):
